@@ -525,11 +525,56 @@ pub fn run(args: &Args) {
             }
         }
     }
+    // ---- 3c. the failing statement is the last one of the main module (with and without an END, with
+    // subprograms behind it): RESUME NEXT ends the program there
+    for with_end in [false, true] {
+        for mode in 0..2 {
+            for subs in 0..3 {
+                let mut src = String::new();
+                src.push_str(if mode == 0 { "ON ERROR GOTO H\n" } else { "ON ERROR RESUME NEXT\n" });
+                src.push_str("PRINT \"start\"\nZ% = 0\n");
+                if mode == 0 && !with_end {
+                    // the handler has to stand somewhere: jump over it
+                    src.push_str("GOTO Last\nH:\nPRINT \"handled\"\nRESUME NEXT\nLast:\nX% = 1 / Z%\n");
+                } else {
+                    src.push_str("X% = 1 / Z%\n");
+                    if with_end {
+                        src.push_str("END\n");
+                    }
+                    if mode == 0 {
+                        src.push_str("H:\nPRINT \"handled\"\nRESUME NEXT\n");
+                    }
+                }
+                if mode == 0 && with_end == false {
+                } else if !with_end && mode == 1 {
+                }
+                for k in 0..subs {
+                    src.push_str(&format!("SUB Helper{} (N%)\nPRINT \"inside helper - never called\"\nEND SUB\n", k));
+                }
+                if mode == 0 && with_end {
+                    // END before the handler: the error is in the statement right before END
+                }
+                let expected = if mode == 0 { "start\r\nhandled\r\n" } else { "start\r\n" };
+                evaluations += 1;
+                sum.count("scenarios_error_in_last_statement");
+                let name = format!("error-in-last-main-statement:{}:{}:{}subs", if with_end { "end" } else { "no-end" }, ["handler", "inline"][mode], subs);
+                match run_program(&src, &RunOpts { budget: 20_000, ..Default::default() }) {
+                    Outcome::Ran(r) => {
+                        let out = String::from_utf8_lossy(&r.stdout).to_string();
+                        if out != expected || r.end != End::Ok {
+                            sum.violation(ImplViolation { key: format!("scenario:{}", name), input: src.replace('\n', " | "), expected: format!("{:?} then normal end", expected), observed: format!("{:?} then {}", out, end_text(&r.end)) });
+                        }
+                    }
+                    other => sum.violation(ImplViolation { key: format!("scenario:{}", name), input: src.replace('\n', " | "), expected: "accepted".into(), observed: format!("{:?}", other).chars().take(200).collect() }),
+                }
+            }
+        }
+    }
     // ---- 4. statements that fail as a whole under ON ERROR RESUME NEXT are skipped, nothing else changes
     error_skip(&mut rng, if args.thorough() { 1500 } else { 250 }, args.thorough(), &mut sum, &mut evaluations);
     sum.write(
         &args.out,
         evaluations,
-        "value level: the real NearestStatementFinder (hook verif_nearest_statement) on random ascending address lists and addresses vs Control.find_current / find_next. Run level: generated control programs (labels, backward/forward GOTO, nested GOSUB, failing statements of six kinds at top level / last in a loop body / last in an IF or CASE block / last in a SUB / inside GOSUB routines, handlers ON ERROR GOTO / RESUME NEXT / GOTO 0 switched in all orders, RESUME / RESUME NEXT / RESUME label), procedural programs with error handlers, repository programs using GOTO/GOSUB/ON ERROR; for each run every control transfer (from the observer trace incl. the error events) is replayed by Control.check_control in Coq. Scenarios: 20 programs whose output and end are known by construction, and 27 programs with an error while the arguments of calls nested one to three deep are being collected (main module, SUB, FUNCTION; assignment, PRINT, SUB call) under a handler that ends in RESUME NEXT. Error skipping: core programs (IF/SELECT/FOR/WHILE/DO nests that run without error) with statements that fail as a whole (E9% = 1 / Z9%) inserted at the end of blocks and at random places under ON ERROR RESUME NEXT: same output, normal end and the same stack depths at the end as the program without them. Non-trivial = distinct event sequences.",
+        "value level: the real NearestStatementFinder (hook verif_nearest_statement) on random ascending address lists and addresses vs Control.find_current / find_next. Run level: generated control programs (labels, backward/forward GOTO, nested GOSUB, failing statements of six kinds at top level / last in a loop body / last in an IF or CASE block / last in a SUB / inside GOSUB routines, handlers ON ERROR GOTO / RESUME NEXT / GOTO 0 switched in all orders, RESUME / RESUME NEXT / RESUME label), procedural programs with error handlers, repository programs using GOTO/GOSUB/ON ERROR; for each run every control transfer (from the observer trace incl. the error events) is replayed by Control.check_control in Coq. Scenarios: 20 programs whose output and end are known by construction, and 27 programs with an error while the arguments of calls nested one to three deep are being collected (main module, SUB, FUNCTION; assignment, PRINT, SUB call) under a handler that ends in RESUME NEXT; 12 programs whose failing statement is the last one of the main module (with / without END, 0-2 subprograms behind it, handler / inline). Error skipping: core programs (IF/SELECT/FOR/WHILE/DO nests that run without error) with statements that fail as a whole (E9% = 1 / Z9%) inserted at the end of blocks and at random places under ON ERROR RESUME NEXT: same output, normal end and the same stack depths at the end as the program without them. Non-trivial = distinct event sequences.",
     );
 }
